@@ -447,6 +447,9 @@ static bool setctl_int(TickitTermDriver *ttd, TickitTermCtl ctl, int value)
       return true;
 
     case TICKIT_TERMCTL_CURSORVIS:
+      /* From now on a reply to the start-up query would be stale */
+      xd->initialised.cursorvis = 1;
+
       if(!xd->mode.cursorvis == !value)
         return true;
 
@@ -460,6 +463,7 @@ static bool setctl_int(TickitTermDriver *ttd, TickitTermCtl ctl, int value)
 
       tickit_termdrv_write_str(ttd, value ? "\e[?12h" : "\e[?12l", 0);
       xd->mode.cursorblink = !!value;
+      xd->initialised.cursorblink = 1;
       return true;
 
     case TICKIT_TERMCTL_MOUSE:
@@ -484,6 +488,7 @@ static bool setctl_int(TickitTermDriver *ttd, TickitTermCtl ctl, int value)
       if(xd->cap.cursorshape)
         tickit_termdrv_write_strf(ttd, "\e[%d q", value * 2 + (xd->mode.cursorblink ? -1 : 0));
       xd->mode.cursorshape = value;
+      xd->initialised.cursorshape = 1;
       return true;
 
     case TICKIT_TERMCTL_KEYPAD_APP:
@@ -558,13 +563,16 @@ static int on_modereport(TickitTermDriver *ttd, int initial, int mode, int value
 
   if(initial == '?') // DEC mode
     switch(mode) {
+      /* A report describes the terminal at the time of the start-up query; once
+       * the control has been set since, it is stale and must not overwrite it
+       */
       case 12: // Cursor blink
-        if(value == 1)
+        if(value == 1 && !xd->initialised.cursorblink)
           xd->mode.cursorblink = 1;
         xd->initialised.cursorblink = 1;
         break;
       case 25: // DECTCEM == Cursor visibility
-        if(value == 1)
+        if(value == 1 && !xd->initialised.cursorvis)
           xd->mode.cursorvis = 1;
         xd->initialised.cursorvis = 1;
         break;
@@ -587,7 +595,8 @@ static int on_decrqss(TickitTermDriver *ttd, const char *args, size_t arglen)
     if(sscanf(args, "%d", &value)) {
       // value==1 or 2 => shape == 1, 3 or 4 => 2, etc..
       int shape = (value+1) / 2;
-      xd->mode.cursorshape = shape;
+      if(!xd->initialised.cursorshape)
+        xd->mode.cursorshape = shape;
       xd->cap.cursorshape = 1;
     }
     xd->initialised.cursorshape = 1;
